@@ -7,7 +7,11 @@
 //   L <name>                                 add_lib (debug id derived from the name) -> lib #k
 //   Y <lib#> <addr:size:name>...             set_lib_symbol_table (size 0 = unknown size)
 //   M <proc#> <lib#> <start> <end> <rel>     add_lib_mapping
+//   H <thread#> <lib#> <addr> <size> <name>  handle_for_native_symbol (size 0 = unknown)     -> native symbol #k (belongs to that thread)
 //   S <thread#> <time_ns> <w> <frames..>     add_sample; frames root first: l<name> (label) | a<hex> (instruction pointer) | r<hex> (return address)
+//                                            | L<name>|<file or ->|<line or ->|<col or ->    (label with source location)
+//                                            | y<hex>|<ns#>|<name or ->|<file or ->|<line or ->|<col or ->|<depth>   (instruction pointer, already symbolicated:
+//                                              handle_for_frame_with_address_and_symbol) | z... (the same with a return address)
 //                                            (an empty frame list = no stack)
 //   K <thread#> <time_ns> <name> <text> <frames..>   add_marker (Text marker, one string field) + set_marker_stack when frames are given
 //   G <type_name> <kinds>                    register_marker_type; kinds: one letter per field, u = String (unique-string), s = Url / p = FilePath / z = SanitizedString (plain JSON strings),
@@ -71,7 +75,15 @@ impl Marker for DynMarker {
     }
 }
 
-fn stack_of(profile: &mut Profile, thread: ThreadHandle, frames: &[&str]) -> Option<StackHandle> {
+fn opt_u32(s: &str) -> Option<u32> {
+    if s == "-" {
+        None
+    } else {
+        Some(s.parse().unwrap())
+    }
+}
+
+fn stack_of(profile: &mut Profile, thread: ThreadHandle, frames: &[&str], nsyms: &[NativeSymbolHandle]) -> Option<StackHandle> {
     let mut stack = None;
     for f in frames {
         let fh = if let Some(n) = f.strip_prefix('l') {
@@ -83,6 +95,21 @@ fn stack_of(profile: &mut Profile, thread: ThreadHandle, frames: &[&str]) -> Opt
         } else if let Some(a) = f.strip_prefix('r') {
             let a = u64::from_str_radix(a, 16).unwrap();
             profile.handle_for_frame_with_address(thread, FrameAddress::ReturnAddress(a), CategoryHandle::OTHER, FrameFlags::empty())
+        } else if let Some(rest) = f.strip_prefix('L') {
+            let p: Vec<&str> = rest.split('|').collect();
+            let s = profile.handle_for_string(p[0]);
+            let file_path = if p[1] == "-" { None } else { Some(profile.handle_for_string(p[1])) };
+            let loc = SourceLocation { file_path, line: opt_u32(p[2]), col: opt_u32(p[3]) };
+            profile.handle_for_frame_with_label_and_source_location(thread, s, loc, CategoryHandle::OTHER, FrameFlags::empty())
+        } else if f.starts_with('y') || f.starts_with('z') {
+            let p: Vec<&str> = f[1..].split('|').collect();
+            let a = u64::from_str_radix(p[0], 16).unwrap();
+            let addr = if f.starts_with('y') { FrameAddress::InstructionPointer(a) } else { FrameAddress::ReturnAddress(a) };
+            let native_symbol = nsyms[p[1].parse::<usize>().unwrap()];
+            let name = if p[2] == "-" { None } else { Some(profile.handle_for_string(p[2])) };
+            let file_path = if p[3] == "-" { None } else { Some(profile.handle_for_string(p[3])) };
+            let info = FrameSymbolInfo { name, native_symbol, source_location: SourceLocation { file_path, line: opt_u32(p[4]), col: opt_u32(p[5]) } };
+            profile.handle_for_frame_with_address_and_symbol(thread, addr, info, p[6].parse().unwrap(), CategoryHandle::OTHER, FrameFlags::empty())
         } else {
             panic!("bad frame {f}")
         };
@@ -99,6 +126,7 @@ pub fn run(line: &str) -> String {
         let mut libs = Vec::new();
         let mut counters = Vec::new();
         let mut mtypes: Vec<(MarkerTypeHandle, String)> = Vec::new();
+        let mut nsyms: Vec<NativeSymbolHandle> = Vec::new();
         for op in line.split(';') {
             let t: Vec<&str> = op.split_whitespace().collect();
             if t.is_empty() {
@@ -145,9 +173,15 @@ pub fn run(line: &str) -> String {
                     t[4].parse().unwrap(),
                     t[5].parse().unwrap(),
                 ),
+                "H" => {
+                    let th = threads[t[1].parse::<usize>().unwrap()];
+                    let size: u32 = t[4].parse().unwrap();
+                    let sym = Symbol { address: t[3].parse().unwrap(), size: if size == 0 { None } else { Some(size) }, name: t[5].to_string() };
+                    nsyms.push(profile.handle_for_native_symbol(th, libs[t[2].parse::<usize>().unwrap()], &sym));
+                }
                 "S" => {
                     let th = threads[t[1].parse::<usize>().unwrap()];
-                    let stack = stack_of(&mut profile, th, &t[4..]);
+                    let stack = stack_of(&mut profile, th, &t[4..], &nsyms);
                     profile.add_sample(th, ns(t[2]), stack, CpuDelta::ZERO, t[3].parse().unwrap());
                 }
                 "K" => {
@@ -156,7 +190,7 @@ pub fn run(line: &str) -> String {
                     let text = profile.handle_for_string(t[4]);
                     let mh = profile.add_marker(th, MarkerTiming::Instant(ns(t[2])), TextMarker { name, text });
                     if t.len() > 5 {
-                        let stack = stack_of(&mut profile, th, &t[5..]);
+                        let stack = stack_of(&mut profile, th, &t[5..], &nsyms);
                         profile.set_marker_stack(th, mh, stack);
                     }
                 }
@@ -218,7 +252,7 @@ pub fn run(line: &str) -> String {
                     }
                     let mh = profile.add_marker(th, timing, DynMarker { ty, name, strings, numbers });
                     if t.len() > 8 {
-                        let stack = stack_of(&mut profile, th, &t[8..]);
+                        let stack = stack_of(&mut profile, th, &t[8..], &nsyms);
                         profile.set_marker_stack(th, mh, stack);
                     }
                 }
